@@ -939,7 +939,12 @@ impl<C: Config> World<C> {
         let r = { let _t = TrackedScope::new(); catch_unwind(AssertUnwindSafe(|| self.exec_inner(a, &mut out))) };
         if let Err(p) = r {
             let msg = if let Some(s) = p.downcast_ref::<String>() { s.clone() } else if let Some(s) = p.downcast_ref::<&str>() { s.to_string() } else { "?".to_string() };
-            if msg.starts_with("driver:") {
+            if msg == "driver: type" {
+                // downcast_ref / downcast_mut with the vector's REAL element type was denied: that is the library's answer, not a
+                // driver problem (C04 / C13: a typed view is available exactly for the real type)
+                out.res = "view_denied";
+                out.note.push("badtype".to_string());
+            } else if msg.starts_with("driver:") {
                 // the driver could not perform the action (e.g. the handle it needs does not exist because an earlier step
                 // misbehaved): logged, and judged a tool error by the trace specification unless the path is already tainted
                 out.res = "driver_error";
